@@ -1,5 +1,5 @@
 (** C01 — generated executors implement GraphQL execution semantics (data and errors). *)
-From GV Require Import Base.Prelude Model.Exec Proofs.ExecProofs Proofs.CollectProofs.
+From GV Require Import Base.Prelude Model.Exec Proofs.ExecProofs Proofs.CollectProofs Model.DirChain Proofs.DirChainProofs.
 Open Scope string_scope.
 Open Scope list_scope.
 
@@ -71,3 +71,47 @@ Theorem C01_collect_legacy_refuted :
                                           SInline "Named" no_dirs [SField "name" "name" "Named" no_dirs []]]) = ["name"].
 Proof. exact collect_legacy_refuted. Qed.
 Print Assumptions C01_collect_legacy_refuted.
+
+
+(** ** schema-directive chains (Model.DirChain): the links around one field's resolver - the field's own directives
+    outside those of its return type.  When every link calls [next], every link runs once, outermost first, then the
+    resolver, and the field is completed from the resolver's outcome. *)
+Theorem C01_directive_chain_all_next : forall ds r,
+  forallb (fun x => is_next (snd x)) ds = true -> run_chain ds r = (map fst ds ++ ["resolver"]%string, res_of_resolver r).
+Proof. exact chain_all_next_lemma. Qed.
+Print Assumptions C01_directive_chain_all_next.
+
+(** A link that answers without calling [next] keeps everything further in - the remaining directives and the
+    resolver - from running, and the field is completed from that link's outcome alone (null without an error, or the
+    one error / recovered panic it raised). *)
+Theorem C01_directive_chain_stops : forall pre n b post r,
+  forallb (fun x => is_next (snd x)) pre = true -> is_next b = false ->
+  run_chain (pre ++ (n, b) :: post) r = (map fst pre ++ [n], res_of_directive n b).
+Proof. exact chain_stops_lemma. Qed.
+Print Assumptions C01_directive_chain_stops.
+
+(** ... and every chain is of one of these two shapes; no link runs twice *)
+Theorem C01_directive_chain_shapes : forall (ds : list (string * dbeh)) r,
+  (forallb (fun x => is_next (snd x)) ds = true \/
+   exists pre n b post, ds = pre ++ (n, b) :: post /\ forallb (fun x => is_next (snd x)) pre = true /\ is_next b = false) /\
+  (List.length (fst (run_chain ds r)) <= S (List.length ds))%nat.
+Proof. intros ds r. split; [exact (chain_shape_lemma ds)|exact (chain_log_bound_lemma ds r)]. Qed.
+Print Assumptions C01_directive_chain_shapes.
+
+(** the nesting gqlgen generates: the field's directives outside the return type's, each group last-written first *)
+Theorem C01_field_directives_wrap_type_directives : forall tdirs fdirs, chain_order tdirs fdirs = rev fdirs ++ rev tdirs.
+Proof. exact chain_order_lemma. Qed.
+Print Assumptions C01_field_directives_wrap_type_directives.
+
+(** Refuted for the other nesting: with the type's directive outside, a field directive that answers null no longer
+    keeps a failing type directive from running. *)
+Theorem C01_type_directives_outside_refuted :
+  let swapped := map (fun n => (n, lookup_beh [("onField", DBlock); ("onType", DError)]%string n)) (rev (["onField"] ++ ["onType"]))%string in
+  run_chain swapped ROk = (["onType"], RErr "onType")%string /\
+  run_chain (field_chain ["onType"] ["onField"] [("onField", DBlock); ("onType", DError)])%string ROk = (["onField"]%string, RNull).
+Proof. exact type_outside_field_witness. Qed.
+Print Assumptions C01_type_directives_outside_refuted.
+
+Example C01_directive_chain_nonvacuous :
+  run_chain (field_chain ["t1"; "t2"] ["f1"; "f2"] [])%string RFail = (["f2"; "f1"; "t2"; "t1"; "resolver"], RErr "resolver")%string.
+Proof. reflexivity. Qed.
